@@ -215,7 +215,11 @@ def finish(prop, tier, t0, res, *, level='model_checking', rule, bounds, assumpt
         else:
             new.append((key, info))
     confirmed = []
-    for key, info in new:
+    for ri, (key, info) in enumerate(new):
+        if ri >= 25:
+            info['detail'] = (info.get('detail') or '') + ' [not individually replayed: more than 25 new keys in this run]'
+            confirmed.append((key, info))
+            continue
         if replayer and info.get('case'):
             ok, why = replayer(info['case'], key)
             if not ok:
